@@ -316,3 +316,24 @@ def r09_13(ctx):
         ctx.check(ok, "Stage.%s: the list form forwards every declaration argument" % fname, detail="arguments dropped for the members of a list (they silently get the defaults: e.g. grid='' instead of 'control')",
                   expected="self.%s(e, %s)" % (fname, ", ".join("%s=%s" % (p_, p_) for p_ in f.params[2:])), found="not forwarded: %s" % ", ".join(missing) if rec else "no recursive call", fi=f,
                   node=(rec[0] if rec else None), sample={"fn": fname, "missing": missing})
+
+
+@rule("R09.14", min_instances=1, desc="a parameter keeps the value it was given until the next set_value: the specification stores its own copy of the value, not the caller's (mutable) object")
+def r09_14(ctx):
+    """`buf = np.array([1.]); ocp.set_value(p, buf); buf[0] = 2` must not change the OCP: the recorded value is read again at
+    every (re-)transcription, so an alias of the caller's array makes the NLP depend on later mutations of that array."""
+    from ..model import nested_functions
+    P = ctx.prog
+    f = P.own_method("Stage", "set_value")
+    fns = [f] + list(nested_functions(f).values())
+    stores = [(g, st) for g in fns for st in walk_no_nested(g.node) if isinstance(st, ast.Assign) and isinstance(st.targets[0], ast.Subscript) and ast.unparse(st.targets[0].value) == "self._param_vals"]
+    ctx.check(len(stores) >= 1, "Stage.set_value records the value", detail="record", expected="self._param_vals[parameter] = <copy of value>", found=str(len(stores)), fi=f)
+    COPIERS = ("DM", "deepcopy", "copy.deepcopy", "np.array", "numpy.array", "copy", "copy.copy", "np.copy")
+    for g, st in stores:
+        v = st.value
+        sc = ctx.scope(g)
+        if isinstance(v, ast.Name):
+            v = sc.reaching(v.id, v) or v
+        copied = isinstance(v, ast.Call) and ast.unparse(v.func) in COPIERS
+        ctx.check(copied, "Stage.set_value stores a private copy of the value", detail="the caller's object is stored by reference: mutating it afterwards silently changes the parameter value used by the next (re-)transcription",
+                  expected="self._param_vals[parameter] = copy.deepcopy(value) (or DM(value))", found=ast.unparse(st), fi=g, node=st, sample={"store": ast.unparse(st)})
